@@ -212,6 +212,12 @@ func checkC06(cfg *core.Config) int {
 			if len(p.Subs) > 0 {
 				p.Sources = append(p.Sources, p.Subs[0].Dir+"/types.go")
 				p.Feature("dart:three-source-files")
+				if i%4 == 1 {
+					// the analysis of the imported package's file is handed to dart.Generate first
+					// (the command line sorts the paths: any order is possible)
+					p.Meta["dart_last_source_first"] = true
+					p.Feature("dart:sub-package-source-first")
+				}
 			}
 		}
 		all = append(all, p)
